@@ -1,5 +1,6 @@
-(* C14 — invariants of the HasStates layer: busy while running, final/stopped status when inactive,
-   and the projection onto the core state machine. *)
+(* C14 — invariants of the HasStates layer with start_machine / stop_machine issued between cycles and at every hook
+   inside a cycle: projection onto the core state machine, busy while running, final/stopped status when inactive,
+   the reported final status is the one of the run that finished. *)
 From Coq Require Import List Arith ZArith Bool Lia.
 Import ListNotations.
 Require Import FV.Base.Util FV.C14.Model FV.C14.Lemmas FV.C14.HasStates.
@@ -8,49 +9,118 @@ Section Proofs.
 Variable C : codes.
 Variable scode : sid -> option Z.
 Variable reset_idle : bool.
+Variable assign_idle : bool.
 Variable W : world.
-Hypothesis Q : quiet W.
 
-Notation h_new_state := (h_new_state C scode).
-Notation h_do_cleanup := (h_do_cleanup C).
-Notation h_after_cleanup := (h_after_cleanup C scode).
-Notation h_turn := (h_turn C scode).
-Notation h_inner := (h_inner C scode).
-Notation h_pickup := (h_pickup C scode reset_idle).
-Notation h_round := (h_round C scode reset_idle).
-Notation h_outer := (h_outer C scode reset_idle).
-Notation hstep := (hstep C scode reset_idle).
-Notation hrun := (hrun C scode reset_idle).
+Notation h_start := (h_start C scode assign_idle).
+Notation h_stop := (h_stop C scode).
+Notation h_hook := (h_hook C scode assign_idle).
+Notation h_new_state := (h_new_state C scode assign_idle).
+Notation h_do_cleanup := (h_do_cleanup C scode assign_idle).
+Notation h_after_cleanup := (h_after_cleanup C scode assign_idle).
+Notation h_turn := (h_turn C scode assign_idle).
+Notation h_inner := (h_inner C scode assign_idle).
+Notation h_pickup_locked := (h_pickup_locked C scode reset_idle assign_idle).
+Notation h_pickup := (h_pickup C scode reset_idle assign_idle).
+Notation h_round := (h_round C scode reset_idle assign_idle).
+Notation h_outer := (h_outer C scode reset_idle assign_idle).
+Notation hstep := (hstep C scode reset_idle assign_idle).
+Notation hrun := (hrun C scode reset_idle assign_idle).
 Notation transition := (transition C scode).
 Notation get_status := (get_status C scode).
+
+(* ------------------------------------------------------------------ hooks of the core machine, once more *)
+Lemma hook_posts s t : w_env W (ctr s) = Some t -> suppressed W (ctr s) t s = false -> next_task (hook W s) = Some t.
+Proof. unfold hook. intros -> ->. reflexivity. Qed.
+Lemma hook_suppressed s t : w_env W (ctr s) = Some t -> suppressed W (ctr s) t s = true -> next_task (hook W s) = next_task s.
+Proof. unfold hook. intros -> ->. reflexivity. Qed.
 
 (* ------------------------------------------------------------------ projection onto the core machine *)
 Definition hdstate (d : hdecision) : hs := match d with HRet h _ => h | HGo h => h end.
 Definition proj (d : hdecision) : decision :=
   match d with HRet h r => DRet (core h) r | HGo h => DGo (core h) end.
 
+Lemma core_h_hook fin h : core (h_hook W fin h) = hook W (core h).
+Proof.
+  unfold HasStates.h_hook. destruct (w_env W (ctr (core h))) as [[i f cl kw|i]|]; cbn [core with_core HasStates.h_start]; try reflexivity.
+  destruct (suppressed W (ctr (core h)) (TStop i) (core h)); reflexivity.
+Qed.
+
+Lemma core_h_new_state h f : core (h_new_state W h f) = new_state W (core h) f.
+Proof. unfold HasStates.h_new_state, new_state. cbn [core with_core]. rewrite core_h_hook. reflexivity. Qed.
+
+Lemma core_set_final h s : core (set_final h s) = core h.
+Proof. reflexivity. Qed.
+
 Lemma core_h_do_cleanup h r :
   core (fst (h_do_cleanup W h r)) = fst (do_cleanup W (core h) r) /\ snd (h_do_cleanup W h r) = snd (do_cleanup W (core h) r).
-Proof. unfold HasStates.h_do_cleanup. destruct (do_cleanup W (core h) r) as [c' ret]. cbn. auto. Qed.
+Proof.
+  unfold HasStates.h_do_cleanup, do_cleanup.
+  set (c1 := match cleanup_reason (emit (core h) (EvInt (reason_code r))) with
+             | Some _ => emit (core h) (EvInt (reason_code r))
+             | None => set_reason (emit (core h) (EvInt (reason_code r))) (Some r) end).
+  destruct (cleanup c1) as [[o c]|]; [|cbn; auto].
+  set (h1l := h_hook W false (with_core h c1)).
+  assert (E : core h1l = hook W c1) by (subst h1l; rewrite core_h_hook; reflexivity).
+  cbv zeta.
+  match goal with |- context [if ?b then set_final ?x ?s else ?y] =>
+    assert (E3 : core (if b then set_final x s else y) = core x) by (destruct b; reflexivity);
+    set (h3 := if b then set_final x s else y) in *
+  end.
+  cbn [core with_core] in E3. rewrite E in E3.
+  rewrite E. destruct (w_c W _); cbn [fst snd]; rewrite core_h_hook, E3; auto.
+Qed.
 
 Lemma proj_h_after_cleanup h r :
   proj (h_after_cleanup W (h_do_cleanup W h r)) = after_cleanup W (do_cleanup W (core h) r).
 Proof.
   destruct (core_h_do_cleanup h r) as [A B]. unfold HasStates.h_after_cleanup, after_cleanup.
-  rewrite B. destruct (snd (do_cleanup W (core h) r)); cbn; rewrite A; reflexivity.
+  rewrite B. destruct (snd (do_cleanup W (core h) r)); cbn [proj]; [rewrite core_h_new_state|]; rewrite A; reflexivity.
 Qed.
 
 Lemma proj_h_turn h : proj (h_turn W h) = turn W (core h).
 Proof.
-  unfold HasStates.h_turn, turn. cbn [core with_core].
-  destruct (next_task (hook W (core h))) as [t|]; [destruct (cleanup_reason (hook W (core h)))|].
-  - destruct (statefunc (hook W (core h))); [|reflexivity].
-    destruct (w_s W (ctr (hook W (core h)))); cbn [proj core with_core]; try reflexivity;
-      apply proj_h_after_cleanup.
-  - apply (proj_h_after_cleanup (with_core h (hook W (core h)))).
-  - destruct (statefunc (hook W (core h))); [|reflexivity].
-    destruct (w_s W (ctr (hook W (core h)))); cbn [proj core with_core]; try reflexivity;
-      apply proj_h_after_cleanup.
+  unfold HasStates.h_turn, turn. set (h0 := h_hook W false h).
+  assert (E0 : core h0 = hook W (core h)) by apply core_h_hook. rewrite <- E0.
+  assert (Hcall : proj (match statefunc (core h0) with
+      | None => HRet h0 IBreak
+      | Some f =>
+          let n := ctr (core h0) in
+          let h1 := h_hook W false (with_core h0 (emit (core h0) (EvCall f (init (core h0))))) in
+          match w_s W n with
+          | BRetry => HRet (with_core h1 (set_init (core h1) false)) IReturn
+          | BFinish => HRet (with_core h1 (set_init (core h1) false)) IBreak
+          | BFinal c =>
+              HRet (set_final (with_core h1 (set_init (emit (core h1) (EvFinal c)) false)) (c, TFinal c)) IBreak
+          | BNext g => HGo (h_new_state W (with_core h1 (set_init (core h1) false)) (Some g))
+          | BNonCallable => h_after_cleanup W (h_do_cleanup W (with_core h1 (set_init (core h1) false)) RExc)
+          | BRaise => h_after_cleanup W (h_do_cleanup W h1 RExc)
+          end
+      end) =
+      match statefunc (core h0) with
+      | None => DRet (core h0) IBreak
+      | Some f =>
+          let n := ctr (core h0) in
+          let s1 := hook W (emit (core h0) (EvCall f (init (core h0)))) in
+          match w_s W n with
+          | BRetry => DRet (set_init s1 false) IReturn
+          | BFinish => DRet (set_init s1 false) IBreak
+          | BFinal c => DRet (set_init (emit s1 (EvFinal c)) false) IBreak
+          | BNext g => DGo (new_state W (set_init s1 false) (Some g))
+          | BNonCallable => after_cleanup W (do_cleanup W (set_init s1 false) RExc)
+          | BRaise => after_cleanup W (do_cleanup W s1 RExc)
+          end
+      end).
+  { destruct (statefunc (core h0)) as [f|]; [|reflexivity]. cbv zeta.
+    set (h1 := h_hook W false (with_core h0 (emit (core h0) (EvCall f (init (core h0)))))).
+    assert (E1 : core h1 = hook W (emit (core h0) (EvCall f (init (core h0))))) by (subst h1; apply core_h_hook).
+    rewrite <- E1.
+    destruct (w_s W (ctr (core h0))); cbn [proj core with_core set_final]; try reflexivity.
+    - rewrite core_h_new_state. reflexivity.
+    - apply (proj_h_after_cleanup (with_core h1 (set_init (core h1) false))).
+    - apply proj_h_after_cleanup. }
+  destruct (next_task (core h0)) as [t|]; [destruct (cleanup_reason (core h0))|]; try exact Hcall.
+  apply proj_h_after_cleanup.
 Qed.
 
 Lemma core_h_inner k : forall h,
@@ -60,10 +130,17 @@ Proof.
   pose proof (proj_h_turn h) as P. destruct (h_turn W h) as [h' r|h']; cbn [proj] in P; rewrite <- P; [auto|apply IH].
 Qed.
 
+Lemma core_h_pickup_locked h : core (h_pickup_locked W h) = pickup_locked W (core h).
+Proof.
+  unfold HasStates.h_pickup_locked. destruct (next_task (core h)) as [[i f cl kw|i]|] eqn:E; cbn [core with_core]; try reflexivity.
+  - unfold pickup_locked. rewrite E. rewrite core_h_new_state. reflexivity.
+  - unfold pickup_locked. rewrite E. reflexivity.
+Qed.
+
 Lemma core_h_pickup h : core (h_pickup W h) = pickup W (core h).
 Proof.
-  unfold HasStates.h_pickup. destruct (next_task (core h)) as [[i f cl kw|i]|] eqn:E; cbn [core with_core]; try reflexivity.
-  unfold pickup. rewrite E. reflexivity.
+  unfold HasStates.h_pickup, pickup. destruct (next_task (core h)); [|reflexivity].
+  rewrite core_h_pickup_locked, core_h_hook. reflexivity.
 Qed.
 
 Lemma core_h_round m h :
@@ -73,10 +150,10 @@ Proof.
   - destruct (core_h_inner m h) as [A B]. destruct (h_inner W m h) as [h1 r], (inner W m (core h)) as [s1 r'].
     cbn [fst snd] in *. subst r'. destruct r; cbn [fst snd].
     + auto.
-    + rewrite core_h_pickup. cbn [core HasStates.h_new_state]. rewrite A. auto.
+    + rewrite core_h_pickup, core_h_new_state, A. auto.
     + destruct (core_h_do_cleanup h1 RExc) as [D1 D2]. rewrite A in D1, D2.
       destruct (h_do_cleanup W h1 RExc) as [h2 ret], (do_cleanup W s1 RExc) as [s2 ret']. cbn [fst snd] in *. subst ret'.
-      destruct ret; cbn [fst snd]; [|rewrite core_h_pickup]; cbn [core HasStates.h_new_state]; rewrite D1; auto.
+      destruct ret; cbn [fst snd]; [|rewrite core_h_pickup]; rewrite core_h_new_state, D1; auto.
   - cbn [fst snd]. rewrite core_h_pickup. auto.
 Qed.
 
@@ -91,16 +168,26 @@ Qed.
 Theorem core_hstep m r h o :
   core (hstep W m r h o) =
   match o with
-  | HStart tid f kw => post (core h) (TStart tid f (Some 0) kw)
+  | HStart tid f cl kw => post (core h) (TStart tid f (Some cl) kw)
   | HStop tid => if is_active (core h) then post (core h) (TStop tid) else core h
   | HCycle => cycle W m r (core h)
   end.
 Proof.
-  destruct o; cbn [HasStates.hstep core].
+  destruct o; cbn [HasStates.hstep core HasStates.h_start].
   - reflexivity.
   - destruct (is_active (core h)); reflexivity.
   - apply core_h_outer.
 Qed.
+
+(* ------------------------------------------------------------------ frame facts of the layer's hook *)
+Lemma h_hook_statefunc fin h : statefunc (core (h_hook W fin h)) = statefunc (core h).
+Proof. rewrite core_h_hook. apply hook_statefunc. Qed.
+
+(* every stop request at a hook comes from stop_machine: it is issued only while the machine is active *)
+Hypothesis G : forall n, w_guard W n = true.
+
+Lemma effective_stop_active i s : suppressed W (ctr s) (TStop i) s = false -> statefunc s <> None.
+Proof. unfold suppressed, active. rewrite G. destruct (statefunc s); [discriminate|discriminate]. Qed.
 
 (* ------------------------------------------------------------------ busy from the start request until finished *)
 Definition busyb (c : Z) : bool := (c_busy C <=? c)%Z && (c <? c_error C)%Z.
@@ -110,6 +197,30 @@ Hypothesis Hbusy : busyb (c_busy C) = true.
 Definition pending_start (s : sm) : bool := match next_task s with Some (TStart _ _ _ _) => true | _ => false end.
 Definition J (h : hs) : Prop :=
   (is_active (core h) = true \/ pending_start (core h) = true) -> busyb (fst (st h)) = true.
+Definition JN (h : hs) : Prop := pending_start (core h) = true -> busyb (fst (st h)) = true.
+Definition B (h : hs) : Prop := busyb (fst (st h)) = true.
+
+Lemma B_J h : B h -> J h.
+Proof. intros H _. exact H. Qed.
+Lemma J_JN h : J h -> JN h.
+Proof. intros H X. apply H. right. exact X. Qed.
+Lemma J_active_B h : J h -> statefunc (core h) <> None -> B h.
+Proof. intros H X. apply H. left. unfold is_active, active. destruct (statefunc (core h)); congruence. Qed.
+
+Lemma start_status_busy h c' f : B (h_start h c' f).
+Proof.
+  unfold B, HasStates.h_start. cbn [st].
+  assert (X : busyb (fst (match get_status (idle h) (Some f) (Some (c_busy C)) with Some s => s | None => st h end)) = true).
+  { unfold HasStates.get_status. destruct (scode f) as [c|] eqn:E; cbn; [apply (Hsc f c E)|exact Hbusy]. }
+  destruct (is_active (core h)); exact X.
+Qed.
+
+Lemma stop_status_busy h c' fin : B h -> statefunc (core h) <> None -> B (h_stop h c' fin).
+Proof.
+  intros HB Hs. unfold B, HasStates.h_stop. cbn [st fst]. unfold HasStates.get_status.
+  destruct (statefunc (core h)) as [g|]; [|congruence].
+  destruct (scode g) as [c|] eqn:E; cbn; [apply (Hsc g c E)|exact HB].
+Qed.
 
 Lemma transition_some_busy s i p g : busyb (fst s) = true -> busyb (fst (transition s i p (Some g))) = true.
 Proof.
@@ -126,24 +237,80 @@ Proof.
   unfold HasStates.transition, HasStates.get_status. destruct (scode f) as [c|] eqn:E; cbn; [apply (Hsc f c E)|exact Hbusy].
 Qed.
 
-Lemma h_new_state_J h f : J h -> (f <> None -> statefunc (core h) <> None) -> J (h_new_state W h f).
+Lemma with_core_J h c : J h -> statefunc c = statefunc (core h) -> next_task c = next_task (core h) -> J (with_core h c).
+Proof. unfold J, is_active, active, pending_start. cbn. intros HJ -> ->. exact HJ. Qed.
+
+Lemma h_hook_B fin h : B h -> B (h_hook W fin h).
 Proof.
-  intros HJ Hact. unfold J. cbn [core st HasStates.h_new_state]. unfold is_active, pending_start.
-  rewrite new_state_statefunc, new_state_next_task by exact Q.
-  destruct f as [g|].
-  - intros _. apply transition_some_busy. apply HJ. left. unfold is_active.
-    destruct (statefunc (core h)); [reflexivity|exfalso; apply Hact; [discriminate|reflexivity]].
-  - intros [X|X]; [discriminate|].
-    destruct (next_task (core h)) as [[tid f cl kw|tid]|]; try discriminate. apply transition_none_start.
+  intros HB. unfold HasStates.h_hook. destruct (w_env W (ctr (core h))) as [[i f cl kw|i]|] eqn:E.
+  - apply start_status_busy.
+  - destruct (suppressed W (ctr (core h)) (TStop i) (core h)) eqn:S; [exact HB|].
+    apply stop_status_busy; [exact HB|apply (effective_stop_active i); exact S].
+  - exact HB.
 Qed.
 
-Lemma h_do_cleanup_J h r : J h -> J (fst (h_do_cleanup W h r)) /\ statefunc (core (fst (h_do_cleanup W h r))) = statefunc (core h).
+Lemma h_hook_J fin h : J h -> J (h_hook W fin h).
 Proof.
-  intros HJ. destruct (core_h_do_cleanup h r) as [A _].
-  pose proof (do_cleanup_spec W (core h) r) as S. pose proof (do_cleanup_next_task W (core h) r Q) as N.
-  unfold HasStates.h_do_cleanup in *. destruct (do_cleanup W (core h) r) as [c' ret]. cbn [fst snd core st] in *.
-  destruct S as (Hs & _). split; [|exact Hs].
-  unfold J, is_active, pending_start in *. cbn [core st]. rewrite Hs, N. exact HJ.
+  intros HJ. unfold HasStates.h_hook. destruct (w_env W (ctr (core h))) as [[i f cl kw|i]|] eqn:E.
+  - apply B_J, start_status_busy.
+  - destruct (suppressed W (ctr (core h)) (TStop i) (core h)) eqn:S.
+    + apply with_core_J; [exact HJ|apply hook_statefunc|apply (hook_suppressed _ _ E S)].
+    + pose proof (effective_stop_active i _ S) as Hact.
+      apply B_J, stop_status_busy; [apply J_active_B; assumption|exact Hact].
+  - apply with_core_J; [exact HJ|apply hook_statefunc|apply hook_next_task_quiet; exact E].
+Qed.
+
+Lemma h_hook_JN fin h : JN h -> JN (h_hook W fin h).
+Proof.
+  intros HJ. unfold HasStates.h_hook. destruct (w_env W (ctr (core h))) as [[i f cl kw|i]|] eqn:E.
+  - intros _. apply start_status_busy.
+  - destruct (suppressed W (ctr (core h)) (TStop i) (core h)) eqn:S.
+    + unfold JN, pending_start in *. cbn [core st with_core]. rewrite (hook_suppressed _ _ E S). exact HJ.
+    + unfold JN, pending_start. cbn [core st HasStates.h_stop]. rewrite (hook_posts _ _ E S). discriminate.
+  - unfold JN, pending_start in *. cbn [core st with_core]. rewrite (hook_next_task_quiet _ _ E). exact HJ.
+Qed.
+
+(* a transition to a state: the status stays busy *)
+Lemma h_new_state_B h g : B h -> B (h_new_state W h (Some g)).
+Proof.
+  intros HB. unfold HasStates.h_new_state.
+  match goal with |- B (with_core (h_hook W ?fin ?h1) _) => assert (H1 : B (h_hook W fin h1)) end.
+  { apply h_hook_B. unfold B. cbn [st]. apply transition_some_busy. exact HB. }
+  exact H1.
+Qed.
+
+(* the finishing transition *)
+Lemma h_new_state_J_none h : J (h_new_state W h None).
+Proof.
+  unfold HasStates.h_new_state.
+  match goal with |- J (with_core (h_hook W ?fin ?h1) _) => assert (H1 : JN (h_hook W fin h1)) end.
+  { apply h_hook_JN. unfold JN, pending_start. cbn [core st emit next_task].
+    destruct (next_task (core h)) as [[tid f cl kw|tid]|]; try discriminate. intros _. apply transition_none_start. }
+  unfold J, is_active, active. cbn [core st with_core set_statefunc statefunc]. intros [X|X]; [discriminate|].
+  apply H1. exact X.
+Qed.
+
+Lemma h_do_cleanup_J h r :
+  J h -> J (fst (h_do_cleanup W h r)) /\ statefunc (core (fst (h_do_cleanup W h r))) = statefunc (core h).
+Proof.
+  intros HJ. split.
+  2:{ destruct (core_h_do_cleanup h r) as [A _]. rewrite A. pose proof (do_cleanup_spec W (core h) r) as S.
+      destruct (do_cleanup W (core h) r) as [c' ret]. cbn [fst]. apply S. }
+  unfold HasStates.h_do_cleanup.
+  set (c1 := match cleanup_reason (emit (core h) (EvInt (reason_code r))) with
+             | Some _ => emit (core h) (EvInt (reason_code r))
+             | None => set_reason (emit (core h) (EvInt (reason_code r))) (Some r) end).
+  assert (J1 : J (with_core h c1)).
+  { apply with_core_J; [exact HJ| |]; subst c1; destruct (cleanup_reason (emit (core h) (EvInt (reason_code r)))); reflexivity. }
+  destruct (cleanup c1) as [[o c]|]; [|exact J1].
+  cbv zeta. set (h1l := h_hook W false (with_core h c1)).
+  assert (J2 : J h1l) by (apply h_hook_J; exact J1).
+  match goal with |- context [if ?b then set_final ?x ?s else ?y] =>
+    assert (J3 : J (if b then set_final x s else y))
+  end.
+  { match goal with |- J (if ?b then _ else _) => destruct b end;
+      (unfold J, is_active, active, pending_start in *; cbn [core st with_core set_final emit set_cleanup statefunc next_task]; exact J2). }
+  destruct (w_c W _); cbn [fst]; apply h_hook_J; exact J3.
 Qed.
 
 Definition JPost (d : hdecision) : Prop := J (hdstate d) /\ statefunc (core (hdstate d)) <> None.
@@ -152,56 +319,46 @@ Lemma h_after_cleanup_JPost h r : J h -> statefunc (core h) <> None -> JPost (h_
 Proof.
   intros HJ Hs. destruct (h_do_cleanup_J h r HJ) as [D1 D2]. unfold HasStates.h_after_cleanup, JPost.
   destruct (h_do_cleanup W h r) as [h' [f|]]; cbn [fst snd hdstate] in *.
-  - split; [apply h_new_state_J; [exact D1|intros _; congruence]|cbn; discriminate].
+  - split; [apply B_J, h_new_state_B, J_active_B; [exact D1|congruence]|rewrite core_h_new_state; cbn; discriminate].
   - split; [exact D1|congruence].
 Qed.
-
-Lemma J_ext h h' : J h -> statefunc (core h') = statefunc (core h) -> next_task (core h') = next_task (core h) ->
-  st h' = st h -> J h'.
-Proof. unfold J, is_active, pending_start. intros HJ -> -> ->. exact HJ. Qed.
-
-Lemma with_core_J h c : J h -> statefunc c = statefunc (core h) -> next_task c = next_task (core h) -> J (with_core h c).
-Proof. unfold J, is_active, pending_start. cbn. intros HJ -> ->. exact HJ. Qed.
 
 Lemma h_turn_J h : J h -> statefunc (core h) <> None -> JPost (h_turn W h).
 Proof.
   intros HJ Hs. unfold HasStates.h_turn.
-  assert (HJ0 : J (with_core h (hook W (core h)))).
-  { apply with_core_J; [exact HJ|apply hook_statefunc|apply hook_next_task; exact Q]. }
-  assert (Hs0 : statefunc (core (with_core h (hook W (core h)))) <> None) by (cbn; rewrite hook_statefunc; exact Hs).
-  set (h0 := with_core h (hook W (core h))) in *.
+  assert (HJ0 : J (h_hook W false h)) by (apply h_hook_J; exact HJ).
+  assert (Hs0 : statefunc (core (h_hook W false h)) <> None) by (rewrite h_hook_statefunc; exact Hs).
+  set (h0 := h_hook W false h) in *.
   assert (Hcall : JPost (match statefunc (core h0) with
       | None => HRet h0 IBreak
       | Some f =>
           let n := ctr (core h0) in
-          let c1 := hook W (emit (core h0) (EvCall f (init (core h0)))) in
+          let h1 := h_hook W false (with_core h0 (emit (core h0) (EvCall f (init (core h0))))) in
           match w_s W n with
-          | BRetry => HRet (with_core h0 (set_init c1 false)) IReturn
-          | BFinish => HRet (with_core h0 (set_init c1 false)) IBreak
+          | BRetry => HRet (with_core h1 (set_init (core h1) false)) IReturn
+          | BFinish => HRet (with_core h1 (set_init (core h1) false)) IBreak
           | BFinal c =>
-              HRet {| core := set_init (emit c1 (EvFinal c)) false; st := st h0; idle := Some (c, TFinal c); log := log h0 |} IBreak
-          | BNext g => HGo (h_new_state W (with_core h0 (set_init c1 false)) (Some g))
-          | BNonCallable => h_after_cleanup W (h_do_cleanup W (with_core h0 (set_init c1 false)) RExc)
-          | BRaise => h_after_cleanup W (h_do_cleanup W (with_core h0 c1) RExc)
+              HRet (set_final (with_core h1 (set_init (emit (core h1) (EvFinal c)) false)) (c, TFinal c)) IBreak
+          | BNext g => HGo (h_new_state W (with_core h1 (set_init (core h1) false)) (Some g))
+          | BNonCallable => h_after_cleanup W (h_do_cleanup W (with_core h1 (set_init (core h1) false)) RExc)
+          | BRaise => h_after_cleanup W (h_do_cleanup W h1 RExc)
           end
       end)).
-  { destruct (statefunc (core h0)) as [f|] eqn:Hsf; [|congruence]. cbn zeta.
-    set (c1 := hook W (emit (core h0) (EvCall f (init (core h0))))).
-    assert (E1 : statefunc c1 = statefunc (core h0) /\ next_task c1 = next_task (core h0)).
-    { subst c1. rewrite hook_statefunc, hook_next_task by exact Q. cbn. auto. }
-    destruct E1 as [E1 E2].
-    assert (J1 : J (with_core h0 (set_init c1 false))) by (apply with_core_J; [exact HJ0|exact E1|exact E2]).
-    assert (J2 : J (with_core h0 c1)) by (apply with_core_J; [exact HJ0|exact E1|exact E2]).
-    assert (N1 : statefunc (core (with_core h0 (set_init c1 false))) <> None) by (cbn; congruence).
-    assert (N2 : statefunc (core (with_core h0 c1)) <> None) by (cbn; congruence).
+  { destruct (statefunc (core h0)) as [f|] eqn:Hsf; [|congruence]. cbv zeta.
+    set (h1 := h_hook W false (with_core h0 (emit (core h0) (EvCall f (init (core h0)))))).
+    assert (J1 : J h1).
+    { subst h1. apply h_hook_J, with_core_J; [exact HJ0|reflexivity|reflexivity]. }
+    assert (S1 : statefunc (core h1) = Some f) by (subst h1; rewrite h_hook_statefunc; cbn; exact Hsf).
+    assert (J1' : J (with_core h1 (set_init (core h1) false))) by (apply with_core_J; [exact J1|reflexivity|reflexivity]).
+    assert (N1 : statefunc (core (with_core h1 (set_init (core h1) false))) <> None) by (cbn; congruence).
     destruct (w_s W (ctr (core h0))).
-    - split; cbn [hdstate]; [apply h_new_state_J; [exact J1|intros _; exact N1]|cbn; discriminate].
-    - split; [exact J1|exact N1].
-    - split; [exact J1|exact N1].
+    - split; cbn [hdstate]; [apply B_J, h_new_state_B, J_active_B; assumption|rewrite core_h_new_state; cbn; discriminate].
+    - split; [exact J1'|exact N1].
+    - split; [exact J1'|exact N1].
     - apply h_after_cleanup_JPost; assumption.
-    - apply h_after_cleanup_JPost; assumption.
+    - apply h_after_cleanup_JPost; [exact J1|congruence].
     - split; cbn [hdstate]; [|cbn; congruence].
-      apply (J_ext h0); [exact HJ0|cbn; exact E1|cbn; exact E2|reflexivity]. }
+      unfold J, is_active, active, pending_start in *. cbn [core st with_core set_final set_init emit statefunc next_task]. exact J1. }
   destruct (next_task (core h0)) as [t|]; [destruct (cleanup_reason (core h0))|]; try exact Hcall.
   apply h_after_cleanup_JPost; assumption.
 Qed.
@@ -214,14 +371,24 @@ Proof.
   apply IH; assumption.
 Qed.
 
-Lemma h_pickup_J h : J h -> statefunc (core h) = None -> J (h_pickup W h).
+Lemma h_pickup_locked_J h : J h -> statefunc (core h) = None -> J (h_pickup_locked W h).
 Proof.
-  intros HJ Hidle. unfold HasStates.h_pickup.
+  intros HJ Hidle. unfold HasStates.h_pickup_locked.
   destruct (next_task (core h)) as [[i f cl kw|i]|] eqn:E; [| |exact HJ].
-  - unfold J. cbn [core st]. intros _. apply transition_some_busy. apply HJ. right. unfold pending_start. rewrite E. reflexivity.
-  - unfold J, is_active, pending_start. cbn [core st with_core]. unfold pickup. rewrite E. cbn. rewrite Hidle.
+  - apply B_J. unfold B. cbn [st].
+    apply h_new_state_B. unfold B. cbn [st with_core]. apply HJ. right. unfold pending_start. rewrite E. reflexivity.
+  - unfold J, is_active, active, pending_start. cbn [core st with_core]. unfold pickup_locked. rewrite E. cbn. rewrite Hidle.
     intros [X|X]; discriminate.
 Qed.
+
+Lemma h_pickup_J h : J h -> statefunc (core h) = None -> J (h_pickup W h).
+Proof.
+  intros HJ Hidle. unfold HasStates.h_pickup. destruct (next_task (core h)); [|exact HJ].
+  apply h_pickup_locked_J; [apply h_hook_J; exact HJ|rewrite h_hook_statefunc; exact Hidle].
+Qed.
+
+Lemma h_new_state_none_idle h : statefunc (core (h_new_state W h None)) = None.
+Proof. rewrite core_h_new_state. reflexivity. Qed.
 
 Lemma h_round_J m h : J h -> J (fst (h_round W m h)).
 Proof.
@@ -230,11 +397,11 @@ Proof.
     destruct (h_inner_J m h HJ Hne) as [I1 I2]. destruct (h_inner W m h) as [h1 r]. cbn [fst] in *.
     destruct r; cbn [fst].
     + exact I1.
-    + apply h_pickup_J; [apply h_new_state_J; [exact I1|congruence]|reflexivity].
+    + apply h_pickup_J; [apply h_new_state_J_none|apply h_new_state_none_idle].
     + destruct (h_do_cleanup_J h1 RExc I1) as [D1 D2].
       destruct (h_do_cleanup W h1 RExc) as [h2 [f|]]; cbn [fst] in *.
-      * apply h_new_state_J; [exact D1|intros _; congruence].
-      * apply h_pickup_J; [apply h_new_state_J; [exact D1|congruence]|reflexivity].
+      * apply B_J, h_new_state_B, J_active_B; [exact D1|congruence].
+      * apply h_pickup_J; [apply h_new_state_J_none|apply h_new_state_none_idle].
   - cbn [fst]. apply h_pickup_J; assumption.
 Qed.
 
@@ -247,22 +414,17 @@ Qed.
 Lemma hstep_J m r h o : J h -> J (hstep W m r h o).
 Proof.
   intros HJ. destruct o; cbn [HasStates.hstep].
-  - unfold J. cbn [core st]. intros _.
-    assert (B : busyb (fst (match get_status (idle h) (Some f) (Some (c_busy C)) with Some s => s | None => st h end)) = true).
-    { unfold HasStates.get_status. destruct (scode f) as [c|] eqn:E; cbn; [apply (Hsc f c E)|exact Hbusy]. }
-    destruct (is_active (core h)); exact B.
+  - apply B_J, start_status_busy.
   - destruct (is_active (core h)) eqn:A; [|exact HJ].
-    unfold J in HJ |- *. cbn [core st fst]. intros _. unfold HasStates.get_status, is_active in *.
-    destruct (statefunc (core h)) as [g|]; [|discriminate].
-    destruct (scode g) as [c|] eqn:E; cbn; [apply (Hsc g c E)|].
-    apply HJ. left. reflexivity.
+    apply B_J, stop_status_busy; [apply HJ; left; exact A|].
+    unfold is_active, active in A. destruct (statefunc (core h)); [discriminate|discriminate].
   - pose proof (h_outer_J m r h HJ) as H. unfold J in *. cbn [core st]. exact H.
 Qed.
 
 Theorem busy_while_running m r ops : J (hrun W m r ops).
 Proof.
   unfold HasStates.hrun.
-  assert (H0 : J (hs0 C)) by (unfold J, is_active, pending_start; cbn; intros [X|X]; discriminate).
+  assert (H0 : J (hs0 C)) by (unfold J, is_active, active, pending_start; cbn; intros [X|X]; discriminate).
   revert H0. generalize (hs0 C). induction ops as [|o ops IH]; intros h H; cbn [fold_left]; [exact H|].
   apply IH. apply hstep_J. exact H.
 Qed.
@@ -270,77 +432,86 @@ Qed.
 (* ------------------------------------------------------------------ final / stopped status when inactive *)
 Definition idle_or_default (i : option status) : status := match i with Some s => s | None => (c_error C, TNoFinal) end.
 Definition K (h : hs) : Prop :=
-  is_active (core h) = false -> pending_start (core h) = false -> st h = idle_or_default (idle h).
+  late h = false -> is_active (core h) = false -> pending_start (core h) = false -> st h = idle_or_default (idle h).
+(* the same without looking at the state: what holds inside the finishing transition *)
+Definition K0 (h : hs) : Prop :=
+  late h = false -> pending_start (core h) = false -> st h = idle_or_default (idle h).
+
+Lemma active_K h : statefunc (core h) <> None -> K h.
+Proof. unfold K, is_active, active. destruct (statefunc (core h)); [discriminate|congruence]. Qed.
+
+Lemma h_hook_K fin h : K h -> K (h_hook W fin h).
+Proof.
+  intros HK. unfold HasStates.h_hook. destruct (w_env W (ctr (core h))) as [[i f cl kw|i]|] eqn:E.
+  - unfold K, pending_start. cbn [core HasStates.h_start]. intros _ _.
+    rewrite (hook_posts _ _ E) by reflexivity. discriminate.
+  - destruct (suppressed W (ctr (core h)) (TStop i) (core h)) eqn:S.
+    + unfold K, is_active, active, pending_start in *. cbn [core st idle late with_core].
+      rewrite hook_statefunc, (hook_suppressed _ _ E S). exact HK.
+    + apply active_K. cbn [core HasStates.h_stop]. rewrite hook_statefunc. apply (effective_stop_active i). exact S.
+  - unfold K, is_active, active, pending_start in *. cbn [core st idle late with_core].
+    rewrite hook_statefunc, (hook_next_task_quiet _ _ E). exact HK.
+Qed.
+
+Lemma h_hook_K0_fin h : K0 h -> K0 (h_hook W true h).
+Proof.
+  intros HK. unfold HasStates.h_hook. destruct (w_env W (ctr (core h))) as [[i f cl kw|i]|] eqn:E.
+  - unfold K0, pending_start. cbn [core HasStates.h_start]. intros _.
+    rewrite (hook_posts _ _ E) by reflexivity. discriminate.
+  - destruct (suppressed W (ctr (core h)) (TStop i) (core h)) eqn:S.
+    + unfold K0, pending_start in *. cbn [core st idle late with_core]. rewrite (hook_suppressed _ _ E S). exact HK.
+    + unfold K0. cbn [late HasStates.h_stop]. discriminate.
+  - unfold K0, pending_start in *. cbn [core st idle late with_core]. rewrite (hook_next_task_quiet _ _ E). exact HK.
+Qed.
 
 Lemma h_new_state_K h f : K (h_new_state W h f).
 Proof.
-  unfold K, is_active, pending_start. cbn [core st idle HasStates.h_new_state].
-  rewrite new_state_statefunc, new_state_next_task by exact Q.
-  destruct f as [g|]; [discriminate|]. intros _ Hp.
-  unfold HasStates.transition, HasStates.get_status, idle_or_default.
-  destruct (next_task (core h)) as [[tid f cl kw|tid]|]; [discriminate| |]; destruct (idle h); reflexivity.
+  destruct f as [g|]; [apply active_K; rewrite core_h_new_state; cbn; discriminate|].
+  unfold HasStates.h_new_state.
+  match goal with |- K (with_core (h_hook W ?fin ?h1) _) => assert (H1 : K0 (h_hook W fin h1)) end.
+  { apply h_hook_K0_fin. unfold K0, pending_start. cbn [core st idle late emit next_task]. intros _ Hp.
+    unfold HasStates.transition, HasStates.get_status, idle_or_default.
+    destruct (next_task (core h)) as [[tid f cl kw|tid]|]; [discriminate| |]; destruct (idle h); reflexivity. }
+  unfold K, pending_start in *. cbn [core st idle late with_core set_statefunc next_task]. intros L _ P. apply H1; assumption.
 Qed.
 
-Lemma active_K h : statefunc (core h) <> None -> K h.
-Proof. unfold K, is_active. destruct (statefunc (core h)); [discriminate|congruence]. Qed.
-
-Lemma h_turn_K h : statefunc (core h) <> None -> K (hdstate (h_turn W h)).
+Lemma inner_active k : forall s, statefunc s <> None -> statefunc (fst (inner W k s)) <> None.
 Proof.
-  intros Hs. assert (P := h_turn_J). pose proof (proj_h_turn h) as Pr.
-  (* the state after a turn is active unless it went through h_new_state None, which never happens inside a turn:
-     every result of a turn has statefunc <> None *)
-  assert (Hact : statefunc (core (hdstate (h_turn W h))) <> None).
-  { pose proof (turn_CInv) as _.
-    assert (X : statefunc (dstate (turn W (core h))) <> None).
-    { unfold turn. set (s0 := hook W (core h)).
-      assert (Hs0 : statefunc s0 <> None) by (subst s0; rewrite hook_statefunc; exact Hs).
-      assert (AC : forall s r, statefunc s <> None -> statefunc (dstate (after_cleanup W (do_cleanup W s r))) <> None).
-      { intros s r Hn. pose proof (do_cleanup_spec W s r) as S. unfold after_cleanup.
-        destruct (do_cleanup W s r) as [s' [f|]]; cbn [fst snd dstate]; [rewrite new_state_statefunc; discriminate|].
-        destruct S as (E & _). congruence. }
-      destruct (next_task s0) as [t|]; [destruct (cleanup_reason s0)|].
-      - destruct (statefunc s0) as [f|] eqn:E; [|congruence].
-        assert (E1 : statefunc (hook W (emit s0 (EvCall f (init s0)))) = Some f) by (rewrite hook_statefunc; exact E).
-        destruct (w_s W (ctr s0)); cbn [dstate]; try (cbn; congruence); try (apply AC; cbn; congruence).
-      - apply AC. exact Hs0.
-      - destruct (statefunc s0) as [f|] eqn:E; [|congruence].
-        assert (E1 : statefunc (hook W (emit s0 (EvCall f (init s0)))) = Some f) by (rewrite hook_statefunc; exact E).
-        destruct (w_s W (ctr s0)); cbn [dstate]; try (cbn; congruence); try (apply AC; cbn; congruence). }
-    destruct (h_turn W h) as [h' r|h']; cbn [proj hdstate] in *; rewrite <- Pr in X; exact X. }
-  apply active_K. exact Hact.
+  induction k as [|k IH]; intros s Hs; cbn [inner]; [exact Hs|].
+  assert (T : statefunc (dstate (turn W s)) <> None).
+  { unfold turn. set (s0 := hook W s).
+    assert (Hs0 : statefunc s0 <> None) by (subst s0; rewrite hook_statefunc; exact Hs).
+    assert (AC : forall s r, statefunc s <> None -> statefunc (dstate (after_cleanup W (do_cleanup W s r))) <> None).
+    { intros s1 r Hn. pose proof (do_cleanup_spec W s1 r) as S. unfold after_cleanup.
+      destruct (do_cleanup W s1 r) as [s' [f|]]; cbn [fst snd dstate]; [rewrite new_state_statefunc; discriminate|].
+      destruct S as (E & _). congruence. }
+    destruct (next_task s0) as [t|]; [destruct (cleanup_reason s0)|].
+    - destruct (statefunc s0) as [f|] eqn:E; [|congruence].
+      assert (E1 : statefunc (hook W (emit s0 (EvCall f (init s0)))) = Some f) by (rewrite hook_statefunc; exact E).
+      destruct (w_s W (ctr s0)); cbn [dstate]; try (cbn; congruence); try (apply AC; cbn; congruence).
+    - apply AC. exact Hs0.
+    - destruct (statefunc s0) as [f|] eqn:E; [|congruence].
+      assert (E1 : statefunc (hook W (emit s0 (EvCall f (init s0)))) = Some f) by (rewrite hook_statefunc; exact E).
+      destruct (w_s W (ctr s0)); cbn [dstate]; try (cbn; congruence); try (apply AC; cbn; congruence). }
+  destruct (turn W s) as [s' r|s']; cbn [dstate fst] in *; [exact T|apply IH; exact T].
 Qed.
 
-Lemma h_inner_active k : forall h, statefunc (core h) <> None -> statefunc (core (fst (h_inner W k h))) <> None.
+Lemma h_inner_active k h : statefunc (core h) <> None -> statefunc (core (fst (h_inner W k h))) <> None.
+Proof. intros Hs. destruct (core_h_inner k h) as [A _]. rewrite A. apply inner_active. exact Hs. Qed.
+
+Lemma h_pickup_locked_K h : K h -> statefunc (core h) = None -> K (h_pickup_locked W h).
 Proof.
-  intros h Hs. destruct (core_h_inner k h) as [A _]. rewrite A.
-  assert (X : forall k s, statefunc s <> None -> statefunc (fst (inner W k s)) <> None).
-  { clear. induction k as [|k IH]; intros s Hs; cbn [inner]; [exact Hs|].
-    assert (T : statefunc (dstate (turn W s)) <> None).
-    { unfold turn. set (s0 := hook W s).
-      assert (Hs0 : statefunc s0 <> None) by (subst s0; rewrite hook_statefunc; exact Hs).
-      assert (AC : forall s r, statefunc s <> None -> statefunc (dstate (after_cleanup W (do_cleanup W s r))) <> None).
-      { intros s1 r Hn. pose proof (do_cleanup_spec W s1 r) as S. unfold after_cleanup.
-        destruct (do_cleanup W s1 r) as [s' [f|]]; cbn [fst snd dstate]; [rewrite new_state_statefunc; discriminate|].
-        destruct S as (E & _). congruence. }
-      destruct (next_task s0) as [t|]; [destruct (cleanup_reason s0)|].
-      - destruct (statefunc s0) as [f|] eqn:E; [|congruence].
-        assert (E1 : statefunc (hook W (emit s0 (EvCall f (init s0)))) = Some f) by (rewrite hook_statefunc; exact E).
-        destruct (w_s W (ctr s0)); cbn [dstate]; try (cbn; congruence); try (apply AC; cbn; congruence).
-      - apply AC. exact Hs0.
-      - destruct (statefunc s0) as [f|] eqn:E; [|congruence].
-        assert (E1 : statefunc (hook W (emit s0 (EvCall f (init s0)))) = Some f) by (rewrite hook_statefunc; exact E).
-        destruct (w_s W (ctr s0)); cbn [dstate]; try (cbn; congruence); try (apply AC; cbn; congruence). }
-    destruct (turn W s) as [s' r|s']; cbn [dstate fst] in *; [exact T|apply IH; exact T]. }
-  apply X. exact Hs.
+  intros HK Hidle. unfold HasStates.h_pickup_locked.
+  destruct (next_task (core h)) as [[i f cl kw|i]|] eqn:E; [| |exact HK].
+  - apply active_K. cbn [core]. cbn. discriminate.
+  - unfold K, is_active, active, pending_start in *. cbn [core st idle late with_core]. unfold pickup_locked. rewrite E. cbn.
+    rewrite Hidle. rewrite Hidle, E in HK. intros L _ _. apply HK; auto.
 Qed.
 
 Lemma h_pickup_K h : K h -> statefunc (core h) = None -> K (h_pickup W h).
 Proof.
-  intros HK Hidle. unfold HasStates.h_pickup.
-  destruct (next_task (core h)) as [[i f cl kw|i]|] eqn:E; [| |exact HK].
-  - apply active_K. cbn [core]. unfold pickup. rewrite E. cbn. discriminate.
-  - unfold K, is_active, pending_start in *. cbn [core st idle with_core]. unfold pickup. rewrite E. cbn. rewrite Hidle.
-    rewrite Hidle, E in HK. intros _ _. apply HK; reflexivity.
+  intros HK Hidle. unfold HasStates.h_pickup. destruct (next_task (core h)); [|exact HK].
+  apply h_pickup_locked_K; [apply h_hook_K; exact HK|rewrite h_hook_statefunc; exact Hidle].
 Qed.
 
 Lemma h_round_K m h : K h -> K (fst (h_round W m h)).
@@ -350,10 +521,10 @@ Proof.
     pose proof (h_inner_active m h Hne) as I. destruct (h_inner W m h) as [h1 r]. cbn [fst] in *.
     destruct r; cbn [fst].
     + apply active_K. exact I.
-    + apply h_pickup_K; [apply h_new_state_K|reflexivity].
+    + apply h_pickup_K; [apply h_new_state_K|apply h_new_state_none_idle].
     + destruct (h_do_cleanup W h1 RExc) as [h2 [f|]]; cbn [fst].
       * apply h_new_state_K.
-      * apply h_pickup_K; [apply h_new_state_K|reflexivity].
+      * apply h_pickup_K; [apply h_new_state_K|apply h_new_state_none_idle].
   - cbn [fst]. apply h_pickup_K; assumption.
 Qed.
 
@@ -366,10 +537,10 @@ Qed.
 Lemma hstep_K m r h o : K h -> K (hstep W m r h o).
 Proof.
   intros HK. destruct o; cbn [HasStates.hstep].
-  - unfold K, pending_start. cbn [core]. intros _ X. discriminate.
+  - unfold K, pending_start. cbn [core HasStates.h_start]. intros _ _ X. discriminate.
   - destruct (is_active (core h)) eqn:A; [|exact HK].
-    unfold K. cbn [core]. unfold is_active in *. cbn. intros X. rewrite A in X. discriminate.
-  - pose proof (h_outer_K m r h HK) as H. unfold K in *. cbn [core st idle]. exact H.
+    unfold K. cbn [core HasStates.h_stop]. unfold is_active, active in *. cbn. intros _ X. rewrite A in X. discriminate.
+  - pose proof (h_outer_K m r h HK) as H. unfold K in *. cbn [core st idle late]. exact H.
 Qed.
 
 Theorem inactive_status_is_final m r ops : K (hrun W m r ops).
@@ -378,6 +549,166 @@ Proof.
   assert (H0 : K (hs0 C)) by (unfold K; cbn; reflexivity).
   revert H0. generalize (hs0 C). induction ops as [|o ops IH]; intros h H; cbn [fold_left]; [exact H|].
   apply IH. apply hstep_K. exact H.
+Qed.
+
+(* ------------------------------------------------------------------ the idle status is the own final status of the run *)
+Hypothesis HR : reset_idle = true.       (* start_machine passes idle_status with the start keywords *)
+Hypothesis HA : assign_idle = false.     (* ... and never assigns it itself *)
+
+(* NS: no stop request arrives at a hook (stop_machine is called between cycles only) *)
+Definition NS : Prop := forall n i, w_env W n <> Some (TStop i).
+Definition I (h : hs) : Prop := idle h = Some (own h) /\ (NS -> late h = false).
+
+Lemma with_core_I h c : I h -> I (with_core h c).
+Proof. intros H; exact H. Qed.
+
+Lemma set_final_I h s : I h -> I (set_final h s).
+Proof. intros [_ H]. split; [reflexivity|exact H]. Qed.
+
+Lemma h_hook_I fin h : I h -> I (h_hook W fin h).
+Proof.
+  intros HI. unfold HasStates.h_hook. destruct (w_env W (ctr (core h))) as [[i f cl kw|i]|] eqn:E.
+  - unfold I, HasStates.h_start. cbn [idle own late]. rewrite HA. split; [apply HI|reflexivity].
+  - destruct (suppressed W (ctr (core h)) (TStop i) (core h)); [exact HI|].
+    split; [reflexivity|]. intros N. exfalso. apply (N _ _ E).
+  - exact HI.
+Qed.
+
+Lemma h_new_state_I h f : I h -> I (h_new_state W h f).
+Proof.
+  intros HI. unfold HasStates.h_new_state.
+  match goal with |- I (with_core (h_hook W ?fin ?h1) _) => assert (H1 : I (h_hook W fin h1)) by (apply h_hook_I; exact HI) end.
+  exact H1.
+Qed.
+
+Lemma h_do_cleanup_I h r : I h -> I (fst (h_do_cleanup W h r)).
+Proof.
+  intros HI. unfold HasStates.h_do_cleanup.
+  match goal with |- context [cleanup ?c1] => destruct (cleanup c1) as [[o c]|] end; [|exact HI].
+  cbv zeta.
+  match goal with |- context [if ?b then set_final ?x ?s else ?y] =>
+    assert (I3 : I (if b then set_final x s else y))
+  end.
+  { assert (I2 : I (h_hook W false (with_core h
+       match cleanup_reason (emit (core h) (EvInt (reason_code r))) with
+       | Some _ => emit (core h) (EvInt (reason_code r))
+       | None => set_reason (emit (core h) (EvInt (reason_code r))) (Some r) end))) by (apply h_hook_I, with_core_I; exact HI).
+    match goal with |- I (if ?b then _ else _) => destruct b end; [apply set_final_I|]; apply with_core_I; exact I2. }
+  destruct (w_c W _); cbn [fst]; apply h_hook_I; exact I3.
+Qed.
+
+Lemma h_after_cleanup_I h r : I h -> I (hdstate (h_after_cleanup W (h_do_cleanup W h r))).
+Proof.
+  intros HI. pose proof (h_do_cleanup_I h r HI) as D. unfold HasStates.h_after_cleanup.
+  destruct (h_do_cleanup W h r) as [h' [f|]]; cbn [fst snd hdstate] in *; [apply h_new_state_I|]; exact D.
+Qed.
+
+Lemma h_turn_I h : I h -> I (hdstate (h_turn W h)).
+Proof.
+  intros HI. unfold HasStates.h_turn.
+  assert (HI0 : I (h_hook W false h)) by (apply h_hook_I; exact HI).
+  set (h0 := h_hook W false h) in *.
+  assert (Hcall : I (hdstate (match statefunc (core h0) with
+      | None => HRet h0 IBreak
+      | Some f =>
+          let n := ctr (core h0) in
+          let h1 := h_hook W false (with_core h0 (emit (core h0) (EvCall f (init (core h0))))) in
+          match w_s W n with
+          | BRetry => HRet (with_core h1 (set_init (core h1) false)) IReturn
+          | BFinish => HRet (with_core h1 (set_init (core h1) false)) IBreak
+          | BFinal c =>
+              HRet (set_final (with_core h1 (set_init (emit (core h1) (EvFinal c)) false)) (c, TFinal c)) IBreak
+          | BNext g => HGo (h_new_state W (with_core h1 (set_init (core h1) false)) (Some g))
+          | BNonCallable => h_after_cleanup W (h_do_cleanup W (with_core h1 (set_init (core h1) false)) RExc)
+          | BRaise => h_after_cleanup W (h_do_cleanup W h1 RExc)
+          end
+      end))).
+  { destruct (statefunc (core h0)) as [f|]; [|exact HI0]. cbv zeta.
+    set (h1 := h_hook W false (with_core h0 (emit (core h0) (EvCall f (init (core h0)))))).
+    assert (I1 : I h1) by (subst h1; apply h_hook_I, with_core_I; exact HI0).
+    destruct (w_s W (ctr (core h0))); cbn [hdstate].
+    - apply h_new_state_I, with_core_I. exact I1.
+    - exact I1.
+    - exact I1.
+    - apply h_after_cleanup_I, with_core_I. exact I1.
+    - apply h_after_cleanup_I. exact I1.
+    - apply set_final_I, with_core_I. exact I1. }
+  destruct (next_task (core h0)) as [t|]; [destruct (cleanup_reason (core h0))|]; try exact Hcall.
+  apply h_after_cleanup_I. exact HI0.
+Qed.
+
+Lemma h_inner_I k : forall h, I h -> I (fst (h_inner W k h)).
+Proof.
+  induction k as [|k IH]; intros h HI; cbn [HasStates.h_inner]; [exact HI|].
+  pose proof (h_turn_I h HI) as T. destruct (h_turn W h) as [h' r|h']; cbn [hdstate fst] in *; [exact T|apply IH; exact T].
+Qed.
+
+Lemma h_pickup_locked_I h : I h -> I (h_pickup_locked W h).
+Proof.
+  intros HI. unfold HasStates.h_pickup_locked. destruct (next_task (core h)) as [[i f cl kw|i]|]; [| |exact HI].
+  - match goal with |- context [HasStates.h_new_state C scode assign_idle W ?x ?y] =>
+      pose proof (h_new_state_I x y (with_core_I h _ HI)) as [_ H3] end.
+    unfold I. cbn [idle own late]. rewrite HR. split; [reflexivity|exact H3].
+  - exact HI.
+Qed.
+
+Lemma h_pickup_I h : I h -> I (h_pickup W h).
+Proof.
+  intros HI. unfold HasStates.h_pickup. destruct (next_task (core h)); [|exact HI].
+  apply h_pickup_locked_I, h_hook_I. exact HI.
+Qed.
+
+Lemma h_round_I m h : I h -> I (fst (h_round W m h)).
+Proof.
+  intros HI. unfold HasStates.h_round. destruct (statefunc (core h)).
+  - pose proof (h_inner_I m h HI) as I1. destruct (h_inner W m h) as [h1 r]. cbn [fst] in *.
+    destruct r; cbn [fst].
+    + exact I1.
+    + apply h_pickup_I, h_new_state_I. exact I1.
+    + pose proof (h_do_cleanup_I h1 RExc I1) as D. destruct (h_do_cleanup W h1 RExc) as [h2 [f|]]; cbn [fst] in *.
+      * apply h_new_state_I. exact D.
+      * apply h_pickup_I, h_new_state_I. exact D.
+  - cbn [fst]. apply h_pickup_I. exact HI.
+Qed.
+
+Lemma h_outer_I m k : forall h, I h -> I (h_outer W m k h).
+Proof.
+  induction k as [|k IH]; intros h HI; cbn [HasStates.h_outer]; [exact HI|].
+  pose proof (h_round_I m h HI) as R. destruct (h_round W m h) as [h' go]. cbn [fst] in R. destruct go; auto.
+Qed.
+
+Lemma hstep_I m r h o : I h -> I (hstep W m r h o).
+Proof.
+  intros HI. destruct o; cbn [HasStates.hstep].
+  - unfold I, HasStates.h_start. cbn [idle own late]. rewrite HA. split; [apply HI|reflexivity].
+  - destruct (is_active (core h)); [|exact HI]. split; [reflexivity|]. cbn [late HasStates.h_stop]. apply HI.
+  - pose proof (h_outer_I m r h HI) as H. exact H.
+Qed.
+
+Theorem idle_is_own_final m r ops : I (hrun W m r ops).
+Proof.
+  unfold HasStates.hrun.
+  assert (H0 : I (hs0 C)) by (split; reflexivity).
+  revert H0. generalize (hs0 C). induction ops as [|o ops IH]; intros h H; cbn [fold_left]; [exact H|].
+  apply IH. apply hstep_I. exact H.
+Qed.
+
+(* after a run has finished the reported status is that run's own final status *)
+Theorem status_is_own_final m r ops :
+  let h := hrun W m r ops in
+  late h = false -> is_active (core h) = false -> pending_start (core h) = false -> st h = own h.
+Proof.
+  intros h L A P. pose proof (inactive_status_is_final m r ops L A P) as HK.
+  pose proof (idle_is_own_final m r ops) as [HI _]. fold h in HK, HI. rewrite HI in HK. exact HK.
+Qed.
+
+(* ... without the exception when stop_machine is only called between cycles *)
+Theorem status_is_own_final_no_stop_at_hooks m r ops :
+  NS -> let h := hrun W m r ops in
+  is_active (core h) = false -> pending_start (core h) = false -> st h = own h.
+Proof.
+  intros N h A P. apply status_is_own_final; [|exact A|exact P].
+  destruct (idle_is_own_final m r ops) as [_ L]. apply L. exact N.
 Qed.
 
 End Proofs.
